@@ -1342,7 +1342,6 @@ static bool _process_send(Device *dev, Action *act, ExecCtx *e)
                                  dev->name, memstr);
                 xfree(memstr);
             }
-            assert(written < 0 || (dropped == strlen(str) - written));
         }
 
         e->processing = true;
